@@ -8,3 +8,11 @@ func debugWriters(p *Prog, st, f string) {
 		fmt.Printf("  %s %s addr=%v\n", p.Pos(a.Pos), a.Fn.Key, a.Addr)
 	}
 }
+
+func debugErrSites(p *Prog) {
+	s := p.SSA()
+	reach := s.reachable(s.runFn())
+	for _, e := range errSites(s, reach) {
+		fmt.Printf("%v %s  %s -> %s : %s\n", e.Propagate, instrPos(p, e.Instr), shortFn(e.Caller), shortFn(e.Callee), e.How)
+	}
+}
